@@ -34,7 +34,7 @@ type FnResult struct {
 func newEnc(P *Program, fn *ssa.Function, c *Contract, W *World) *Enc {
 	return &Enc{P: P, W: W, fn: fn, C: c, vals: map[ssa.Value]Val{}, notes: map[string]bool{}, unmod: map[string]bool{},
 		externs: map[string]bool{}, inlines: map[string]bool{}, oblCount: map[string]int{}, writes: map[*ssa.BasicBlock]map[string]bool{},
-		specSigs: map[string]*specSig{}, inlineStack: map[*ssa.Function]bool{}}
+		specSigs: map[string]*specSig{}, inlineStack: map[*ssa.Function]bool{}, ranges: map[*ssa.Range]*rangeModel{}}
 }
 
 func (e *Enc) assumeAllocated(st *bstate, v Val) {
